@@ -7,6 +7,8 @@ import (
 	"strconv"
 	"strings"
 	"sync"
+	"sync/atomic"
+	"time"
 	"unicode"
 	"unicode/utf8"
 
@@ -56,6 +58,58 @@ func recFn(id int, name string) func(*girc.Client, *cmdhandler.Input) {
 	}
 }
 
+// waitUntil polls cond: first by yielding (the goroutines involved need microseconds), then
+// with short sleeps that grow, so a case costs what it needs and a loaded machine only
+// makes it slower, never wrong.  False when max has passed.
+func waitUntil(max time.Duration, cond func() bool) bool {
+	for i := 0; i < 200; i++ {
+		if cond() {
+			return true
+		}
+		runtime.Gosched()
+	}
+	deadline := time.Now().Add(max)
+	d := 5 * time.Microsecond
+	for !cond() {
+		if time.Now().After(deadline) {
+			return false
+		}
+		time.Sleep(d)
+		if d < time.Millisecond {
+			d *= 2
+		}
+	}
+	return true
+}
+
+// cmdFlush is ctcpSess.flush with the adaptive wait: what the client wrote since mark.
+func cmdFlush(x *ctcpSess, mark int) []string {
+	x.n++
+	tok := "VSYNC " + strconv.Itoa(x.n) + "\r\n"
+	x.s.C.Send(&girc.Event{Command: "VSYNC", Params: []string{strconv.Itoa(x.n)}})
+	var out []string
+	ok := waitUntil(10*time.Second, func() bool {
+		if x.s.Mark() <= mark {
+			return false
+		}
+		lines := x.s.Since(mark)
+		for i, l := range lines {
+			if l == tok {
+				out = make([]string, 0, i)
+				for _, p := range lines[:i] {
+					out = append(out, strings.TrimSuffix(p, "\r\n"))
+				}
+				return true
+			}
+		}
+		return false
+	})
+	if !ok {
+		return append(x.s.Since(mark), "?sync-timeout")
+	}
+	return out
+}
+
 // cmdExec runs Execute and returns the invocations (Fn runs in a goroutine of its own:
 // wait until every goroutine started by the call has ended) and the lines written.
 func cmdExec(x *ctcpSess, ch *cmdhandler.CmdHandler, e girc.Event) (invs []cmdInv, lines []string) {
@@ -65,8 +119,8 @@ func cmdExec(x *ctcpSess, ch *cmdhandler.CmdHandler, e girc.Event) (invs []cmdIn
 	mark := x.s.Mark()
 	base := runtime.NumGoroutine()
 	ch.Execute(x.s.C, e)
-	quiesce(base)
-	lines = x.flush(mark)
+	waitUntil(10*time.Second, func() bool { return runtime.NumGoroutine() <= base })
+	lines = cmdFlush(x, mark)
 	for len(cmdRec) > 0 {
 		invs = append(invs, <-cmdRec)
 	}
@@ -265,6 +319,205 @@ func isASCII(s string) bool {
 		}
 	}
 	return true
+}
+
+// ---- shared by cmd.exec and cmd.seq ----
+
+type cmdReg struct {
+	id      int
+	minArgs int
+}
+
+// cmdBuild registers the commands (functions made by mk) and returns the table the
+// statement expects: the registrations Add accepted.
+func cmdBuild(ch *cmdhandler.CmdHandler, cs []cmdSpec, mk func(id int, name string) func(*girc.Client, *cmdhandler.Input)) (*cmdhandler.CmdHandler, map[string]cmdReg) {
+	table := map[string]cmdReg{}
+	for id, spec := range cs {
+		cmd := mkCommand(id, spec)
+		cmd.Fn = mk(id, spec.name)
+		if ch.Add(cmd) == nil {
+			m := spec.minArgs
+			if m < 0 {
+				m = 0
+			}
+			table[strings.ToLower(spec.name)] = cmdReg{id, m}
+			for _, a := range spec.aliases {
+				table[strings.ToLower(a)] = cmdReg{id, m}
+			}
+		}
+	}
+	return ch, table
+}
+
+// cmdObs renders what one message did: "-", the invocation, or the reply line.
+func cmdObs(e girc.Event, invs []cmdInv, lines []string) string {
+	head := func(l string) string {
+		if e.Source == nil {
+			return "?" + Hex(l)
+		}
+		var cands []string
+		if len(e.Params) > 0 {
+			cands = append(cands, strings.TrimSuffix((&girc.Event{Command: "PRIVMSG", Params: []string{e.Params[0], e.Source.Name + ", x"}}).String(), "x"))
+		}
+		cands = append(cands, strings.TrimSuffix((&girc.Event{Command: "PRIVMSG", Params: []string{e.Source.Name, " x"}}).String(), " x"))
+		for _, h := range cands {
+			if strings.HasPrefix(l, h) {
+				return Hex(h)
+			}
+		}
+		return "?" + Hex(l)
+	}
+	genericTail := "type '\x02!help \x0302<command>\x03\x02' to optionally get more info about a specific command."
+	switch {
+	case len(invs) == 0 && len(lines) == 0:
+		return "-"
+	case len(invs) == 1 && len(lines) == 0:
+		return "I:" + strconv.Itoa(invs[0].id) + ":" + HexList(invs[0].args) + ":" + Hex(invs[0].raw) + ":" + strconv.Itoa(len(invs[0].args))
+	case len(invs) == 0 && len(lines) == 1:
+		l := lines[0]
+		switch {
+		case strings.HasSuffix(l, genericTail):
+			return "H:generic:" + head(l)
+		case strings.Contains(l, "unknown command \x02") && strings.HasSuffix(l, "\x02."):
+			return "H:unknown:" + head(l)
+		case strings.Contains(l, "there is no help documentation for \x02") && strings.HasSuffix(l, "\x02"):
+			return "H:nodoc:" + head(l)
+		}
+		if i := strings.LastIndex(l, " :: doc-"); i >= 0 {
+			if id, err := strconv.Atoi(l[i+8:]); err == nil && strings.Contains(l, "\x02") {
+				return "H:text" + strconv.Itoa(id) + ":" + head(l)
+			}
+		}
+		return "R:" + Hex(l)
+	}
+	return fmt.Sprintf("?multi:%d invocations, %d lines", len(invs), len(lines))
+}
+
+// cmdOracle is the statement, evaluated on one message and what it did.
+func cmdOracle(prefix string, e girc.Event, table map[string]cmdReg, invs []cmdInv, lines []string) (string, *specM) {
+	var m *specM
+	if len(e.Params) > 0 {
+		m = specAddressed(prefix, e.Params[len(e.Params)-1])
+	}
+	addressed := e.Source != nil && e.Command == "PRIVMSG" && m != nil && m.name != "help"
+	var target cmdReg
+	if addressed {
+		var ok bool
+		if target, ok = table[m.name]; !ok {
+			addressed = false
+		}
+	}
+	switch {
+	case len(invs) > 1:
+		return "exec-multiple: more than one invocation for one message", m
+	case len(invs) > 0 && (len(e.Params) == 0 || !strings.HasPrefix(e.Params[len(e.Params)-1], prefix)):
+		return "invoked-without-prefix: a function ran although the text does not begin with the prefix", m
+	case !addressed && len(invs) > 0:
+		return "exec-invokes-unaddressed: a function ran for a message that addresses no registered command", m
+	case addressed && len(m.args) < target.minArgs && len(invs) > 0:
+		return "exec-below-minargs: the function ran with fewer than MinArgs arguments", m
+	case addressed && len(m.args) < target.minArgs && (len(lines) != 1 || !strings.HasPrefix(lines[0], "PRIVMSG ")):
+		return "exec-no-usage-reply: too few arguments and no usage reply", m
+	case addressed && len(m.args) >= target.minArgs && len(invs) == 0:
+		return "exec-misses-addressed: the addressed command did not run", m
+	case addressed && len(m.args) >= target.minArgs && (invs[0].id != target.id || invs[0].raw != m.raw || !sameStrings(invs[0].args, m.args)):
+		return "exec-wrong-args: wrong command, arguments or raw remainder", m
+	case addressed && len(m.args) >= target.minArgs && len(lines) != 0:
+		return "exec-reply-and-invoke: a reply was sent although the command ran", m
+	}
+	return "", m
+}
+
+// ---- cmd.seq: several messages while the functions of earlier ones still run ----
+
+// seqState is the gate of one pass: every function notes which message started it, takes a
+// first copy of its Input, keeps the *Input and blocks; after the last Execute the gate
+// opens and it reads the same Input again.
+type seqState struct {
+	mu      sync.Mutex
+	cur     int
+	gate    chan struct{}
+	arrived int32
+	done    chan seqInv
+}
+
+type seqInv struct {
+	idx         int // message being executed when the function started
+	early, late cmdInv
+}
+
+func snapshotInput(id int, name string, in *cmdhandler.Input) cmdInv {
+	o := ""
+	if in.Origin != nil {
+		o = in.Origin.Last()
+	}
+	return cmdInv{id, name, append([]string{}, in.Args...), in.RawArgs, o}
+}
+
+func (st *seqState) reset() {
+	st.mu.Lock()
+	st.cur, st.gate, st.done = 0, make(chan struct{}), make(chan seqInv, 64)
+	st.mu.Unlock()
+	atomic.StoreInt32(&st.arrived, 0)
+}
+
+func (st *seqState) fn(id int, name string) func(*girc.Client, *cmdhandler.Input) {
+	return func(c *girc.Client, in *cmdhandler.Input) {
+		st.mu.Lock()
+		inv := seqInv{idx: st.cur, early: snapshotInput(id, name, in)}
+		gate, done := st.gate, st.done
+		st.mu.Unlock()
+		atomic.AddInt32(&st.arrived, 1)
+		<-gate
+		inv.late = snapshotInput(id, name, in) // the same *Input, after the later messages
+		done <- inv
+	}
+}
+
+// settled: every function started so far sits at the gate (base = goroutines before the pass).
+func (st *seqState) settle(base int) {
+	waitUntil(10*time.Second, func() bool {
+		return runtime.NumGoroutine() <= base+int(atomic.LoadInt32(&st.arrived))
+	})
+}
+
+func (st *seqState) release(base int) []seqInv {
+	n := int(atomic.LoadInt32(&st.arrived))
+	close(st.gate)
+	out := make([]seqInv, 0, n)
+	for i := 0; i < n; i++ {
+		select {
+		case v := <-st.done:
+			out = append(out, v)
+		case <-time.After(10 * time.Second):
+			return out
+		}
+	}
+	waitUntil(10*time.Second, func() bool { return runtime.NumGoroutine() <= base })
+	return out
+}
+
+func clobbered(v seqInv) bool {
+	return !sameStrings(v.early.args, v.late.args) || v.early.raw != v.late.raw || v.early.origin != v.late.origin
+}
+
+func genSeqText(r *rand.Rand, prefix string, keys []string, i, nargs int) string {
+	if r.Intn(8) == 0 {
+		return genCmdText(r, prefix, keys)
+	}
+	name := Pick(r, "ping", "x", "help", "zzz")
+	if len(keys) > 0 && r.Intn(8) != 0 {
+		name = keys[r.Intn(len(keys))]
+	}
+	t := prefix + name
+	for j := 0; j < nargs; j++ {
+		w := string(rune('a'+i%26)) + strconv.Itoa(j)
+		if r.Intn(12) == 0 {
+			w = ""
+		}
+		t += " " + w
+	}
+	return t
 }
 
 // ---- generators ----
@@ -745,110 +998,173 @@ func init() {
 				e.Source = &girc.Source{Name: c[2]}
 			}
 			cs := decodeCmds(rest[k:])
-			ch, err := cmdhandler.New(prefix)
+			ch0, err := cmdhandler.New(prefix)
 			if err != nil {
 				return Result{Obs: "E", Sig: "new-fails", Oracle: "new-rejects-prefix: New fails for prefix " + strconv.Quote(prefix) + ": " + err.Error()}
 			}
-			// the table the statement expects: the registrations Add accepted
-			type reg struct {
-				id      int
-				minArgs int
-			}
-			table := map[string]reg{}
-			names := map[int]string{}
-			for id, spec := range cs {
-				cmd := mkCommand(id, spec)
-				if ch.Add(cmd) == nil {
-					m := spec.minArgs
-					if m < 0 {
-						m = 0
-					}
-					table[strings.ToLower(spec.name)] = reg{id, m}
-					for _, a := range spec.aliases {
-						table[strings.ToLower(a)] = reg{id, m}
-					}
-					names[id] = cmd.Name
-				}
-			}
+			ch, table := cmdBuild(ch0, cs, recFn)
 			x := cmdSession()
 			invs, lines := cmdExec(x, ch, e)
-
-			// observation
 			var res Result
-			head := func(l string) string {
-				if e.Source == nil {
-					return "?" + Hex(l)
-				}
-				var cands []string
-				if len(e.Params) > 0 {
-					cands = append(cands, strings.TrimSuffix((&girc.Event{Command: "PRIVMSG", Params: []string{e.Params[0], e.Source.Name + ", x"}}).String(), "x"))
-				}
-				cands = append(cands, strings.TrimSuffix((&girc.Event{Command: "PRIVMSG", Params: []string{e.Source.Name, " x"}}).String(), " x"))
-				for _, h := range cands {
-					if strings.HasPrefix(l, h) {
-						return Hex(h)
-					}
-				}
-				return "?" + Hex(l)
+			res.Obs = cmdObs(e, invs, lines)
+			var m *specM
+			res.Oracle, m = cmdOracle(prefix, e, table, invs, lines)
+			res.Sig = cmdExecSig(e, m, len(invs), len(lines))
+			return res
+		},
+	})
+	Register(&Suite{
+		Name: "cmd.seq",
+		Prop: []string{"C18"},
+		Fixed: func() []Case {
+			var out []Case
+			one := func(prefix, target string, texts []string, cs ...cmdSpec) {
+				c := Case{prefix, target, strconv.Itoa(len(texts))}
+				c = append(c, texts...)
+				out = append(out, append(c, encodeCmds(cs)...))
 			}
-			genericTail := "type '\x02!help \x0302<command>\x03\x02' to optionally get more info about a specific command."
-			switch {
-			case len(invs) == 0 && len(lines) == 0:
-				res.Obs = "-"
-			case len(invs) == 1 && len(lines) == 0:
-				res.Obs = "I:" + strconv.Itoa(invs[0].id) + ":" + HexList(invs[0].args) + ":" + Hex(invs[0].raw) + ":" + strconv.Itoa(len(invs[0].args))
-			case len(invs) == 0 && len(lines) == 1:
-				l := lines[0]
-				switch {
-				case strings.HasSuffix(l, genericTail):
-					res.Obs = "H:generic:" + head(l)
-				case strings.Contains(l, "unknown command \x02") && strings.HasSuffix(l, "\x02."):
-					res.Obs = "H:unknown:" + head(l)
-				case strings.Contains(l, "there is no help documentation for \x02") && strings.HasSuffix(l, "\x02"):
-					res.Obs = "H:nodoc:" + head(l)
-				default:
-					res.Obs = "R:" + Hex(l)
-					if i := strings.LastIndex(l, " :: doc-"); i >= 0 {
-						if id, err := strconv.Atoi(l[i+8:]); err == nil && strings.Contains(l, "\x02") {
-							res.Obs = "H:text" + strconv.Itoa(id) + ":" + head(l)
+			x := cmdSpec{name: "x"}
+			y := cmdSpec{name: "y", aliases: []string{"yy"}, minArgs: 2, help: true}
+			one("!", "me", []string{"!x one two three", "!x four five"}, x)
+			one("!", "me", []string{"!x a", "!x b c", "!x d e f", "!x g h i j"}, x)
+			one("!", "me", []string{"!x a b c d", "!x e f g", "!x h i", "!x j", "!x"}, x)
+			one("!", "#chan", []string{"!x a b", "!y c d e", "!yy f", "!help y", "!x g"}, x, y)
+			one("!", "me", []string{"!x 1 2 3 4 5 6 7 8 9 10", "!x a", "!x b c d e f g h i j k l", "!y m n"}, x, y)
+			one("", "me", []string{"x a  b ", "x", "x  ", "y 1 2"}, x, y)
+			one("!", "me", []string{"!x same", "!x same", "!x same"}, x)
+			one("!", "me", []string{"!nope a", "x a", "!X a", "!x a\nb"}, x)
+			return out
+		},
+		Gen: func(r *rand.Rand) Case {
+			prefix := "!"
+			if r.Intn(4) == 0 {
+				prefix = Pick(r, cmdPrefixes...)
+			}
+			cs := genCmdTable(r)
+			if r.Intn(2) == 0 {
+				cs = append(cs, cmdSpec{name: "x"})
+			}
+			keys := lowerKeys(cs)
+			k := 2 + r.Intn(5)
+			n, step := r.Intn(7), Pick(r, "up", "down", "same", "rand")
+			texts := make([]string, k)
+			for i := range texts {
+				texts[i] = genSeqText(r, prefix, keys, i, n)
+				switch step {
+				case "up":
+					n++
+				case "down":
+					if n > 0 {
+						n--
+					}
+				case "rand":
+					n = r.Intn(11)
+				}
+			}
+			c := Case{prefix, Pick(r, "me", "me", "#chan"), strconv.Itoa(k)}
+			c = append(c, texts...)
+			return append(c, encodeCmds(cs)...)
+		},
+		Run: func(c Case) Result {
+			if len(c) < 3 {
+				return Result{Obs: "?args"}
+			}
+			prefix, target := c[0], c[1]
+			k := natLoose(c[2])
+			rest := c[3:]
+			if k > len(rest) {
+				k = len(rest)
+			}
+			texts := rest[:k]
+			cs := decodeCmds(rest[k:])
+			ch0, err := cmdhandler.New(prefix)
+			if err != nil {
+				return Result{Obs: "E", Sig: "new-fails", Oracle: "new-rejects-prefix: New fails for prefix " + strconv.Quote(prefix) + ": " + err.Error()}
+			}
+			st := &seqState{}
+			st.reset()
+			ch, table := cmdBuild(ch0, cs, st.fn)
+			x := cmdSession()
+			event := func(text string) girc.Event {
+				return girc.Event{Source: &girc.Source{Name: "nick"}, Command: "PRIVMSG", Params: []string{target, text}}
+			}
+
+			// pass 1: one Execute after the other; no function returns before the last one
+			base := runtime.NumGoroutine()
+			lines := make([][]string, k)
+			for i, text := range texts {
+				st.mu.Lock()
+				st.cur = i
+				st.mu.Unlock()
+				mark := x.s.Mark()
+				ch.Execute(x.s.C, event(text))
+				st.settle(base)
+				lines[i] = cmdFlush(x, mark)
+			}
+			held := st.release(base)
+			var res Result
+			obs := make([]string, k)
+			nInv, nClob := 0, 0
+			for i, text := range texts {
+				var invs []cmdInv
+				for _, v := range held {
+					if v.idx != i {
+						continue
+					}
+					invs = append(invs, v.late)
+					nInv++
+					if clobbered(v) {
+						nClob++
+						if res.Oracle == "" {
+							res.Oracle = fmt.Sprintf("args-clobbered: message %d %q started its function with Args %q RawArgs %q; after the later messages the same Input has Args %q RawArgs %q Origin %q", i, text, v.early.args, v.early.raw, v.late.args, v.late.raw, v.late.origin)
 						}
 					}
 				}
-			default:
-				res.Obs = fmt.Sprintf("?multi:%d invocations, %d lines", len(invs), len(lines))
-			}
-
-			// the statement
-			var m *specM
-			if len(e.Params) > 0 {
-				m = specAddressed(prefix, e.Params[len(e.Params)-1])
-			}
-			res.Sig = cmdExecSig(e, m, len(invs), len(lines))
-			addressed := e.Source != nil && e.Command == "PRIVMSG" && m != nil && m.name != "help"
-			var target reg
-			if addressed {
-				var ok bool
-				if target, ok = table[m.name]; !ok {
-					addressed = false
+				e := event(text)
+				obs[i] = cmdObs(e, invs, lines[i])
+				if o, _ := cmdOracle(prefix, e, table, invs, lines[i]); o != "" && res.Oracle == "" {
+					res.Oracle = fmt.Sprintf("%s [message %d of %d: %q]", o, i, k, text)
 				}
 			}
-			switch {
-			case len(invs) > 1:
-				res.Oracle = "exec-multiple: more than one invocation for one message"
-			case len(invs) > 0 && (len(e.Params) == 0 || !strings.HasPrefix(e.Params[len(e.Params)-1], prefix)):
-				res.Oracle = "invoked-without-prefix: a function ran although the text does not begin with the prefix"
-			case !addressed && len(invs) > 0:
-				res.Oracle = "exec-invokes-unaddressed: a function ran for a message that addresses no registered command"
-			case addressed && len(m.args) < target.minArgs && len(invs) > 0:
-				res.Oracle = "exec-below-minargs: the function ran with fewer than MinArgs arguments"
-			case addressed && len(m.args) < target.minArgs && (len(lines) != 1 || !strings.HasPrefix(lines[0], "PRIVMSG ")):
-				res.Oracle = "exec-no-usage-reply: too few arguments and no usage reply"
-			case addressed && len(m.args) >= target.minArgs && len(invs) == 0:
-				res.Oracle = "exec-misses-addressed: the addressed command did not run"
-			case addressed && len(m.args) >= target.minArgs && (invs[0].id != target.id || invs[0].raw != m.raw || !sameStrings(invs[0].args, m.args)):
-				res.Oracle = "exec-wrong-args: wrong command, arguments or raw remainder"
-			case addressed && len(m.args) >= target.minArgs && len(lines) != 0:
-				res.Oracle = "exec-reply-and-invoke: a reply was sent although the command ran"
+			res.Obs = strings.Join(obs, ";")
+			res.Sig = fmt.Sprintf("k%d/i%d", k, nInv)
+			if nInv < 2 {
+				res.Sig = "trivial-fewer-than-two-invocations"
+			}
+
+			// pass 2 (oracle only): the same messages from k goroutines at once; every function
+			// must end up with the arguments of its own message, and the same functions must
+			// run as in pass 1
+			st.reset()
+			base = runtime.NumGoroutine()
+			mark := x.s.Mark()
+			var wg sync.WaitGroup
+			for _, text := range texts {
+				wg.Add(1)
+				go func(e girc.Event) {
+					defer wg.Done()
+					ch.Execute(x.s.C, e)
+				}(event(text))
+			}
+			wg.Wait()
+			st.settle(base)
+			conc := st.release(base)
+			cmdFlush(x, mark)
+			count := map[string]int{}
+			for _, v := range held {
+				count[strconv.Itoa(v.late.id)+"/"+v.late.origin]++
+			}
+			for _, v := range conc {
+				count[strconv.Itoa(v.late.id)+"/"+v.late.origin]--
+				m := specAddressed(prefix, v.late.origin)
+				if res.Oracle == "" && (clobbered(v) || m == nil || m.raw != v.late.raw || !sameStrings(m.args, v.late.args)) {
+					res.Oracle = fmt.Sprintf("args-clobbered: concurrent Execute: the function started for %q ended with Args %q RawArgs %q (started with Args %q)", v.late.origin, v.late.args, v.late.raw, v.early.args)
+				}
+			}
+			for key, n := range count {
+				if n != 0 && res.Oracle == "" {
+					res.Oracle = fmt.Sprintf("seq-concurrent-differs: concurrent Execute ran %q %+d times compared with the sequential pass", key, -n)
+				}
 			}
 			return res
 		},
